@@ -350,6 +350,117 @@ static bool check_pairing(const Plan &p, const RunResult &r, std::string &oracle
 }
 
 // ================================================================================================
+// Scenario: C07 decompression fidelity (ground truth) and bomb containment (all inputs)
+// ================================================================================================
+
+static Bytes c07_payload(Rng &rng, int &kind) {
+    kind = (int) rng.below(9);
+    Bytes b; size_t n = 0;
+    switch (kind) {
+        case 0: break;                                                      // empty
+        case 1: b = "x"; break;
+        case 2: n = (size_t) rng.range(2, 400); for (size_t i = 0; i < n; i++) b.push_back("the quick brown fox \r\n<html>"[rng.below(29)]); break;
+        case 3: n = (size_t) rng.range(2, 3000); for (size_t i = 0; i < n; i++) b.push_back((char) rng.below(256)); break;
+        case 4: { static const size_t S[] = {8191, 8192, 8193, 16384, 16385}; n = S[rng.below(5)]; for (size_t i = 0; i < n; i++) b.push_back((char) ('a' + (i * 7 + rng.below(3)) % 26)); break; }
+        case 5: n = (size_t) rng.range(20000, 70000); for (size_t i = 0; i < n; i++) b.push_back((char) ('a' + rng.below(4))); break;
+        case 6: n = (size_t) rng.range(1000, 200000); b.assign(n, rng.coin() ? '\0' : 'A'); break;   // highly compressible
+        case 7: n = (size_t) rng.range(9000, 30000); for (size_t i = 0; i < n; i++) b.push_back((char) rng.below(256)); break;   // incompressible, > one output buffer
+        default: n = (size_t) rng.range(2, 100); for (size_t i = 0; i < n; i++) b.push_back((char) ('0' + rng.below(10))); break;
+    }
+    return b;
+}
+
+static const char *C07_CODINGS[] = {"gzip", "x-gzip", "deflate-raw", "deflate-zlib", "lzma", "gzip,gzip", "deflate,deflate", "gzip-labelled-deflate", "deflate-labelled-gzip", "plain-labelled-gzip", "plain-labelled-deflate"};
+static const int C07_NCOD = (int) (sizeof C07_CODINGS / sizeof *C07_CODINGS);
+
+static void c07_plan(Rng &rng, Plan &p, uint64_t variant) {
+    p.prop = "C07"; p.scenario = "coding";
+    wellformed_cfg(rng, p.cfg);
+    p.cfg.set("res_decomp", 1);
+    p.cfg.set("clock_step", 1);   // well-behaved clock: the verdict must not depend on machine load (seam S7)
+    int pk; Bytes payload = c07_payload(rng, pk);
+    int cod = (int) ((variant + rng.below(C07_NCOD)) % C07_NCOD);
+    std::string cname = C07_CODINGS[cod];
+    p.cfg.set("c07_coding", cod); p.cfg.set("c07_payload_kind", pk);
+    int level = (int) rng.range(1, 9);
+    Bytes body; std::string ce;
+    bool passthrough_expected = false;
+    if (cname == "gzip" || cname == "x-gzip") { body = z_encode(payload, 31, level, rng.chance(1, 3) ? (int) rng.below(16) : 0); ce = cname; }
+    else if (cname == "deflate-raw") { body = z_encode(payload, -15, level, 0); ce = "deflate"; }
+    else if (cname == "deflate-zlib") { body = z_encode(payload, 15, level, 0); ce = "deflate"; }
+    else if (cname == "lzma") { body = lzma_alone_encode(payload, 1u << 16); ce = "lzma"; if (payload.size() > 100000) payload.resize(100000), body = lzma_alone_encode(payload, 1u << 16); }
+    else if (cname == "gzip,gzip") { body = z_encode(z_encode(payload, 31, level, 0), 31, level, 0); ce = rng.coin() ? "gzip, gzip" : "gzip,gzip"; }
+    else if (cname == "deflate,deflate") { body = z_encode(z_encode(payload, -15, level, 0), -15, level, 0); ce = "deflate, deflate"; }
+    else if (cname == "gzip-labelled-deflate") { body = z_encode(payload, 31, level, 0); ce = "deflate"; }
+    else if (cname == "deflate-labelled-gzip") { body = z_encode(payload, -15, level, 0); ce = "gzip"; }
+    else { // plain text announced as compressed: must be passed through, not lost
+        if (payload.empty()) payload = "plain";
+        // avoid accidental validity: start with a byte no deflate/gzip/zlib stream of ours starts with
+        payload[0] = 'H'; if (payload.size() > 1) payload[1] = 'T';
+        body = payload; ce = cname == "plain-labelled-gzip" ? "gzip" : "deflate"; passthrough_expected = true;
+    }
+    if (body.size() > 120000) { // keep one-byte schedules inside the simulated time limit
+        payload.resize(std::min<size_t>(payload.size(), 60000)); body = z_encode(payload, 31, 1, 0); ce = "gzip"; p.cfg.set("c07_coding", 0);
+    }
+    (void) passthrough_expected;
+    Script s;
+    MsgSpec q; q.method = "GET"; q.target = "/id0/c07"; { HeaderSpec h; h.name = "Host"; h.value = "c07.example"; q.headers.push_back(h); }
+    MsgSpec r; r.is_request = false; r.status = 200; r.reason = "OK";
+    { HeaderSpec h; h.name = rng.coin() ? "Content-Encoding" : "content-encoding"; h.value = ce; r.headers.push_back(h); }
+    { HeaderSpec h; h.name = "X-Sim-Id"; h.value = "0"; r.headers.push_back(h); }
+    r.body = body; r.payload = payload;
+    int fr = (int) rng.below(3);
+    if (body.empty() && fr == 2) fr = 0;
+    if (fr == 0) { r.framing = FR_CL; HeaderSpec h; h.name = "Content-Length"; h.value = strfmt("%zu", body.size()); r.headers.push_back(h); }
+    else if (fr == 1) { r.framing = FR_CHUNKED; HeaderSpec h; h.name = "Transfer-Encoding"; h.value = "chunked"; r.headers.push_back(h); size_t left = body.size(); while (left) { size_t c = std::min<size_t>(left, (size_t) rng.range(1, 5000)); r.chunk_sizes.push_back(c); left -= c; if (r.chunk_sizes.size() > 300) { r.chunk_sizes.push_back(left); break; } } }
+    else r.framing = FR_CLOSE;
+    s.req.push_back(q); s.res.push_back(r);
+    p.conns.resize(1);
+    build_conn_from_script(rng, s, p.conns[0], true);
+    ConnPlan &cp = p.conns[0];
+    std::vector<Extent> m0, m1; for (auto &x : cp.xchg) { m0.push_back(x.req); m1.push_back(x.res); }
+    static const size_t MEANS[] = {1, 2, 3, 4, 5, 8, 16, 64, 512, 4096};
+    int strat = (int) rng.below(6);
+    std::vector<size_t> c1;
+    const Exchange &x = cp.xchg[0];
+    if (strat == 0) {   // sweep a single cut through the start of the compressed body (header of the coding) and its end (trailer)
+        size_t bs = (size_t) x.res_head_end, be = (size_t) x.res.b;
+        size_t span = std::min<size_t>(40, be - bs);
+        size_t off = (size_t) ((variant / C07_NCOD) % (2 * span + 1));
+        size_t pos = off <= span ? bs + off : be - (off - span);
+        if (pos > 0 && pos < cp.stream[1].size()) c1.push_back(pos);
+    } else if (strat == 1) { c1 = choose_cuts(rng, cp.stream[1], m1, ST_UNIFORM, MEANS[rng.below(5)]); }   // tiny chunks
+    else if (strat == 2) { // tiny first chunks of the body, then large
+        size_t pcut = (size_t) x.res_head_end; c1.push_back(pcut); for (int i = 0; i < 6 && pcut < cp.stream[1].size(); i++) { pcut += (size_t) rng.range(1, 4); c1.push_back(pcut); }
+        std::sort(c1.begin(), c1.end()); c1.erase(std::unique(c1.begin(), c1.end()), c1.end()); while (!c1.empty() && c1.back() >= cp.stream[1].size()) c1.pop_back();
+    } else c1 = choose_cuts(rng, cp.stream[1], m1, (int) rng.below(ST_ONECUT), MEANS[rng.below(10)]);
+    std::vector<size_t> c0;
+    skeleton_ops(rng, cp, 0, c0, c1, p.ops);
+}
+
+static bool check_c07(const Plan &p, const RunResult &r, std::string &oracle, std::string &detail, Agg *agg) {
+    const ConnPlan &cp = p.conns[0];
+    std::string cname = C07_CODINGS[p.cfg.get("c07_coding", 0) % C07_NCOD];
+    for (auto &ch : cname) if (ch == ',') ch = '+';
+    if (r.conns[0].txs.size() != cp.xchg.size()) { oracle = "C07.tx_count." + cname; detail = strfmt("%zu exchanges, %zu transactions", cp.xchg.size(), r.conns[0].txs.size()); return false; }
+    const TxRec *t = tx_of_exchange(r, 0, 0);
+    const Bytes *body = expect_get(cp.xchg[0], "@body.res");
+    if (!t || !body) return true;
+    if (t->body[1] != *body) {
+        size_t k = 0; while (k < body->size() && k < t->body[1].size() && (*body)[k] == t->body[1][k]) k++;
+        if (t->decomp_restart_lost_input) {
+            // attributed by call site: the restart path re-feeds only the current chunk (known finding K04 when listed)
+            if (g_known_sites.count("decomp.restart.prior_input")) { if (agg) agg->inc("known_hit.decomp.restart.prior_input"); return true; }
+            oracle = "C07.payload_mismatch@decomp.restart.prior_input";
+        } else oracle = "C07.payload_mismatch." + cname;
+        detail = strfmt("payload %zu bytes, delivered %zu bytes, first difference at %zu (%s)", body->size(), t->body[1].size(), k, cname.c_str());
+        return false;
+    }
+    if (t->n_complete[1] != 1) { oracle = "C07.response_not_complete." + cname; detail = "response did not complete after close"; return false; }
+    return true;
+}
+
+// ================================================================================================
 // Scenario: C11 ambiguity indicators (trigger applied by the actor => flag must be set)
 // ================================================================================================
 
@@ -606,8 +717,18 @@ static bool check_c16(const Plan &p, const RunResult &r, std::string &oracle, st
 // dispatch
 // ================================================================================================
 
+std::string plan_trigger(const Plan &p) {
+    if (p.prop == "C07" && p.scenario.compare(0, 6, "coding") == 0 && !p.conns.empty() && !p.conns[0].xchg.empty()) {
+        long cod = p.cfg.get("c07_coding", 0);
+        const Bytes *body = expect_get(p.conns[0].xchg[0], "@body.res");
+        // a body announced as gzip/deflate that is not compressed and too short for the decoder to reject before the stream ends
+        if ((cod == 9 || cod == 10) && body && body->size() < 5) return "c07.short_plain_body_announced_as_compressed";
+    }
+    return "";
+}
+
 bool is_known_property(const std::string &prop) {
-    static const char *P[] = {"C01", "C02", "C03", "C04", "C05", "C06", "C09", "C10", "C11", "C16"};
+    static const char *P[] = {"C01", "C02", "C03", "C04", "C05", "C06", "C07", "C09", "C10", "C11", "C16"};
     for (auto q : P) if (prop == q) return true;
     return false;
 }
@@ -621,6 +742,7 @@ bool generate_plan(const std::string &prop, uint64_t seed, Plan &out) {
     else if (prop == "C02" || prop == "C04" || prop == "C06") wf_plan(rng, out, prop);
     else if (prop == "C11") c11_plan(rng, out, seed);
     else if (prop == "C16") c16_plan(rng, out);
+    else if (prop == "C07") { if (seed % 4 == 3) { chaos_plan(rng, out, "C07"); out.cfg.set("res_decomp", 1); if (rng.coin()) { static const long B[] = {1024, 4096, 65536}; out.cfg.set("bomb_limit", B[rng.below(3)]); } } else c07_plan(rng, out, seed / 4); }
     else return false;
     return true;
 }
@@ -695,6 +817,19 @@ Verdict evaluate_plan(const Plan &p, Agg *agg) {
         if (v.violated) { v.oracle = prop + ".via." + v.oracle; return v; }
         std::string o, d;
         if (!check_c11(p, r, o, d, agg)) { v.violated = true; v.oracle = o; v.detail = d; }
+        return v;
+    }
+    if (prop == "C07") {
+        RunResult r; execute_plan(p, r); note_run(r, p, v, agg);
+        first_violation_of(r, "C01", v);
+        if (v.violated) { v.oracle = prop + ".via." + v.oracle; return v; }
+        first_violation_of(r, "C07", v);
+        if (v.violated) return v;
+        if (p.scenario.compare(0, 6, "coding") == 0) {
+            std::string o, d;
+            if (!check_c07(p, r, o, d, agg)) { v.violated = true; v.oracle = o; v.detail = d; }
+            if (agg) agg->inc(std::string("c07.coding.") + C07_CODINGS[p.cfg.get("c07_coding", 0) % C07_NCOD]);
+        }
         return v;
     }
     if (prop == "C16") {
